@@ -177,6 +177,15 @@ def Picklist.matchesRow (pl : Picklist) (r : Row) : Except Err Bool :=
 /-- `passes_all_picklists` -/
 def passesAll (pls : List Picklist) (s : Sig) : Bool := pls.all (·.hasSig s)
 
+/-- the bookkeeping `__contains__` / `matches_manifest_row` keep: `found` = the values that produced a match (it never
+    feeds back into a verdict; `sig check -o` reports `pickset - found`) -/
+def Picklist.foundAfter (pl : Picklist) (asked : List Sig) : List PVal :=
+  (asked.map (fun s => applyPre (preOf pl.coltype) (sigAttr pl.coltype s))).filter pl.decide
+
+/-- `sig check --output-missing`: the picklist values without a match among the signatures looked at -/
+def Picklist.missingAfter (pl : Picklist) (asked : List Sig) : List PVal :=
+  pl.pickset.filter (fun v => !(pl.foundAfter asked).contains v)
+
 /-- `_get_value_for_csv_row` + the `if not col: continue` of `load`: raw CSV values to the pickset -/
 def csvValue (ct : Coltype) (raw : PVal) : Option PVal :=
   let q := if raw.truthy then applyPre (preOf ct) raw else raw
